@@ -27,9 +27,9 @@ CHECKS = {
          "deterministic simulation used as closed-world harness: reference timeout grammars over an enumerated boundary table"),
  "C13": ("exploration", "Requests that need no conversion or match no endpoint are generated with arbitrary headers, query strings, declared lengths and protocol-invalid bodies under all segmentations and body faults; field-by-field and byte-by-byte identity is checked at the downstream handler and at the client, including flush pass-through.",
          "deterministic simulation with fault injection: identity oracle at both seams under seeded I/O schedules and body faults"),
- "C14": ("exploration", "2..6 RPCs (incl. full-duplex ones with reader and writer sub-tasks, and one-sided failures) share one Transcoder and pools under seeded uniform/PCT/sticky/starve schedules that switch tasks at every seam call; per-RPC solo-vs-concurrent differential, pool/compressor ownership monitor, and well-formedness of duplex responses under one-sided faults. Data races proper are not observed (one task runs at a time).",
-         "deterministic simulation: seeded schedule search over N concurrent RPCs with solo differential and pool-ownership invariants"),
- "C15": ("exploration", "Histories of 0..20 valid and hostile RPCs precede a probe on one Transcoder with adversarial deterministic pool policies; the probe's canonical result is compared with a fresh Transcoder; pool and compressor misuse monitors are armed.",
+ "C14": ("exploration", "2..6 RPCs (incl. full-duplex ones with reader and writer sub-tasks, and one-sided failures) share one Transcoder and pools under seeded uniform/PCT/sticky/starve schedules that switch tasks at every seam call; per-RPC solo-vs-concurrent differential, pool/compressor ownership monitor, and well-formedness of duplex responses under one-sided faults. A second phase runs the same plan generator under the race-detector build of the simulator (scheduler hand-over invisible to the detector, simulator code uninstrumented, explicit happens-before edges only where a real program has them: goroutine start, handler join, pool Put->Get, mutexes): unsynchronised accesses by two tasks inside the package under test are reported with both stacks.",
+         "deterministic simulation: seeded schedule search over N concurrent RPCs with solo differential and pool-ownership invariants, plus the Go race detector driven by the same deterministic scheduler"),
+ "C15": ("exploration", "Histories of 0..20 valid and hostile RPCs (in a third of the worlds over two services with their own limits, codecs and type resolvers) precede a probe on one Transcoder with adversarial deterministic pool policies; the probe's canonical result is compared with a fresh Transcoder; pool and compressor misuse monitors are armed.",
          "deterministic simulation: history-vs-fresh differential under adversarial deterministic pool reuse"),
  "C16": ("exploration", "Bounded liveness by quiescence: a strict ping-pong between a simulated client that only sees flushed bytes and a scripted handler; any withheld byte is a deadlock the scheduler detects exactly (no timeout), over sampled adapter pairings, round counts, sizes and schedules.",
          "deterministic simulation: strict ping-pong on a flush-visibility transport with deadlock (quiescence) detection"),
@@ -45,7 +45,7 @@ CHECKS = {
          "deterministic simulation used as closed-world harness: independent reference binder/encoder for google.api.http over seeded messages"),
  "C08": ("exploration", "I/O segmentation is the schedule: every scenario is run atomically and under drawn segmentations of deliveries, handler read sizes, handler writes/flushes and scheduling policies; metamorphic equality of handler-visible request bytes and canonical client outcome.",
          "deterministic simulation: atomic-vs-segmented differential under seeded I/O schedules"),
- "C20": ("exploration", "Same Plan and schedule against seven ways of supplying one schema to NewTranscoder (by name, generated descriptor, fresh protodesc file, private registry with google.api.http as a dynamic extension, no parent file, NotFound resolver alone and combined); canonical outcomes and backend views must be equal. vanguardgrpc.NewTranscoder is not covered (grpc-go's handler transport cannot be scheduled).",
+ "C20": ("exploration", "Same Plan and schedule against nine ways of supplying one schema to NewTranscoder (by name, generated descriptor, fresh protodesc file, private registry with google.api.http as a dynamic extension, no parent file, NotFound resolver alone and combined, resolvers that know all but the request-only / response-only types), for one generated service and for two services defined in one run-time built file; canonical outcomes and backend views must be equal. vanguardgrpc.NewTranscoder is not covered (grpc-go's handler transport cannot be scheduled).",
          "deterministic simulation: metamorphic same-plan execution across schema provenances"),
 }
 REASON_PENDING = "check not built yet in this round (claimed in DESIGN.md; will be added)"
@@ -62,8 +62,8 @@ def main():
     na = [{"property_id": p["id"], "reason": REASON_PENDING} for p in props if p["id"] not in CHECKS]
     hooks = subprocess.run(["git", "-C", "/repo", "log", "--format=%h %s"], capture_output=True, text=True).stdout.splitlines()
     hook_commits = [l.split()[0] for l in hooks if l.split(" ", 1)[1].startswith("verif:")]
-    m = {"version": 1, "setup_cmd": "./vsim build",
-         "hooks": {"guard": "verif", "enable": "go build -tags verif (vsim build compiles /verif/sim into /repo's module through -overlay; nothing is written to /repo)",
+    m = {"version": 1, "setup_cmd": "./vsim build --all",
+         "hooks": {"guard": "verif", "enable": "go build -tags verif (vsim build compiles /verif/sim into /repo's module through -overlay; nothing is written to /repo). Beyond the committed buffer-pool hook, the overlay compiles the package's non-test files that import sync from copies in which that import names /verif/sim/verifsync (lock and sync.Pool seams; build-time only, same line numbers). ./vsim build --all also builds the race-detector variant (-race, simulator packages excluded from instrumentation).",
                    "baseline_off_cmd": "cd /repo && GOFLAGS=-mod=mod GOPROXY=off go test -vet=off -count=1 -timeout 25m ./...",
                    "source_commits": hook_commits, "add_only": True},
          "engines": [{"name": "vsim", "path": "/verif/vsim", "serves_properties": sorted(CHECKS),
